@@ -13,14 +13,13 @@ LOG=$D/verify.log; : > $LOG
 demo() {
   # demo_test.go (package trie_test / trie) goes into trie/; a main program into demo/
   if [ -f $D/demo_test.go ]; then
-    pkgdir=trie
-    grep -q '^package array' $D/demo_test.go && pkgdir=array
-    grep -q '^package encode' $D/demo_test.go && pkgdir=encode
-    grep -q '^package index' $D/demo_test.go && pkgdir=index
+    pkg=$(grep -m1 '^package ' $D/demo_test.go | awk '{print $2}' | sed 's/_test$//')
+    case "$pkg" in trie|array|encode|index) pkgdir=$pkg ;; *) pkgdir=$pkg; mkdir -p $pkgdir; madedir=1 ;; esac
     cp $D/demo_test.go $pkgdir/zz_demo_test.go
     fn=$(grep -o 'func Test[A-Za-z0-9_]*' $D/demo_test.go | sed 's/func //' | paste -sd'|')
     timeout 900 go test -vet=off -count=1 -run "^($fn)\$" ./$pkgdir/ >> $LOG 2>&1; rc=$?
     rm -f $pkgdir/zz_demo_test.go
+    [ -n "${madedir:-}" ] && rm -rf $pkgdir
     return $rc
   elif [ -d $D/demo ]; then
     mkdir -p zzdemo && cp $D/demo/*.go zzdemo/ && timeout 900 go run ./zzdemo >> $LOG 2>&1; rc=$?
